@@ -4,6 +4,7 @@ import (
 	"verif/core"
 	_ "verif/props/c01"
 	_ "verif/props/c02"
+	_ "verif/props/c03"
 	_ "verif/props/c04"
 	_ "verif/props/c05"
 	_ "verif/props/c06"
